@@ -601,7 +601,16 @@ impl State {
                     *file = Box::new(OpenOptions::new().create(true).append(true).open(&dummy)?);
                     remove_file(&dummy)?;
 
-                    *file = Box::new(OpenOptions::new().create(true).append(true).open(p_path)?);
+                    match OpenOptions::new().create(true).append(true).open(p_path) {
+                        Ok(f) => *file = Box::new(f),
+                        Err(e) => {
+                            // the writer must not keep the removed file: what is written
+                            // from now on would be lost without any notice
+                            *file =
+                                Box::new(OpenOptions::new().create(true).append(true).open(&dummy)?);
+                            return Err(e);
+                        }
+                    }
                 }
             }
         }
